@@ -19,6 +19,9 @@ reader  also holds the *byte level* cases (cases with 'data', run_reader_bytes):
         text (invalid bytes, BOMs, NULs, Latin-1 letters, cut multi-byte sequences inside comments, the problem line
         and the clause lines) given BY NAME to CNF.from_file / cnfgen dimacs / cnfshuffle -i, and through handles
         the caller opened with 14 encoding/error-handler pairs; the real programs under a UTF-8 and an ASCII locale.
+reader  also holds the *trail* cases (byte cases with 'trail': lines of lone punctuation after the last clause) and
+        the *stream* cases (cases with 'stream', run_reader_stream): seekable streams and the tools' standard input
+        handed over at a position other than 0.
 writer_large  large instances: formulas around the usual buffer sizes through the writers, and
         DIMACS texts of 1..4 MiB in every alignment with the powers of two through the readers
         (run_reader_big).
@@ -49,6 +52,8 @@ ASSUMPTIONS = [
     "text files are UTF-8; text that cannot be encoded (lone surrogates) is only fed through StringIO",
     "a file given by name whose bytes are not valid UTF-8 may be refused (even when the damage is inside a comment) or read through any strict decoder of a usual encoding (utf-8, utf-8-sig, latin-1, cp1252, ascii, the locale's; utf-16/32 with BOM); a reading that no strict decoding of the bytes supports is a misreading. A handle opened by the caller carries the caller's choice of encoding and error handler: the reference reading is the one of the text that handle delivers (errors='ignore' chosen by the caller may glue digits - that is then the text)",
     "cnfshuffle -q -p -v -c (no polarity flips, no permutations) returns the formula it read",
+    "stream cases: the reader reads from the CURRENT position of the stream it is handed (file objects, and the standard input of the tools when it is a regular file the caller has read from): what is in front of the position is the caller's business - the reference reading is the one of the text from the position to the end; the caller positions text streams by tell()/seek(), readline() or read(k) only, and an inherited descriptor by unbuffered reads",
+    "trail cases: a line made of '%' alone is not an end-of-data mark of the format the tree documents (the SATLIB habit is not adopted): it is a token that is not an integer, so the text is refused; whatever the reader does with such lines, it must not return fewer clauses than the text closes",
     "the cnfgen tool is run in-process (cli()), stdout captured; CLIError is the tool-level form of the reader's ValueError",
     "transformation chains contain at most one substitution of arity 2, so sizes are bounded by construction",
 ]
@@ -1365,6 +1370,8 @@ def _read_with_tree(text, mode):
 def run_reader(case):
     if 'data' in case:
         return run_reader_bytes(case)
+    if 'stream' in case:
+        return run_reader_stream(case)
     text, mode = case['text'], case['mode']
     verdict = rd.classify(text)
     got, exc, mode = _read_with_tree(text, mode)
@@ -1732,10 +1739,10 @@ PROC_ENVS = {
 SHUFFLE_FIXED = ['-q', '-p', '-v', '-c']       # no flips, no permutations: the tool hands back what it read
 
 
-def _byte_base(n, clauses, head=(), mid=None, tail=None, eol=b'\n'):
+def _byte_base(n, clauses, head=(), mid=None, tail=None, eol=b'\n', m=None):
     """The bytes of a well formed document: comment lines, problem line, one clause per line."""
     lines = [c for c in head]
-    lines.append('p cnf {} {}'.format(n, len(clauses)).encode('ascii'))
+    lines.append('p cnf {} {}'.format(n, len(clauses) if m is None else m).encode('ascii'))
     for i, c in enumerate(clauses):
         if mid is not None and i == len(clauses) // 2:
             lines.append(mid)
@@ -1813,6 +1820,24 @@ def _byte_inject(base, edits):
     for s, e, rep in sorted(todo, reverse=True):
         data = data[:s] + rep + data[e:]
     return data
+
+
+# lines made of lone punctuation after the last clause, and what follows them: the reader never drops the end of a text
+TRAIL_PUNCT = [b'%', b'0', b'c', b'p', b' % ', b'\t0', b'c%', b'%0', b'% 0']
+TRAIL_AFTER = [[], [[2, -1]], [[1], [-2, 1]], [b'0'], [b'x y'], [b'%'], [b'c end'], [b'p cnf 1 1', [1]], [[]], [b'1 2'],
+               [b'%', [1, 2]], [b'0', b'%']]
+TRAIL_M = ['before', 'full']
+
+
+def _byte_trail(n, clauses, punct, after, m_kind, head=(), eol=b'\n', final_eol=True):
+    """-> (bytes, least number of clauses of any complete reading): the document, a lone-punctuation line, then `after`
+    (lists = clause lines, bytes = literal lines).  m_kind: the problem line counts the clauses in front of the
+    punctuation line ('before') or every closing 0 of the text ('full')."""
+    lines = [punct] + [(' '.join(str(l) for l in list(a) + [0]).encode('ascii') if isinstance(a, list) else a) for a in after]
+    zeros = sum(ln.split().count(b'0') for ln in lines if ln.strip()[:1] not in (b'c', b'p'))
+    base = _byte_base(n, clauses, head, None, None, eol, m=len(clauses) + (zeros if m_kind == 'full' else 0))
+    data = base + eol.join(lines) + (eol if final_eol else b'')
+    return data, len(clauses) + zeros
 
 
 def _strict_decodings(data, more=()):
@@ -2062,6 +2087,13 @@ def run_reader_bytes(case):
             raise KeyError(bmode)
     finally:
         os.unlink(path)
+    if case.get('trail') is not None:
+        # (stated apart from the reference reading) a text is refused or read to its end: what follows a line of lone
+        # punctuation is never dropped
+        labels.append('bytes-trail-returned' if exc is None else 'bytes-trail-refused')
+        if exc is None and len(got[1]) < case['trail']:
+            raise Violation("[{}] the end of the text is dropped: {} clauses returned ({}), the text closes {} clauses; "
+                            "bytes={!r}".format(bmode, len(got[1]), got[1][:12], case['trail'], data[:300]))
     has_p = b'p' in data
     ntok = sum(len(ln.split()) for ln in data.split(b'\n') if ln.strip()[:1] not in (b'c', b'p', b''))
     return Outcome(labels=labels, nontrivial=has_p and ntok >= 1, rejected=exc is not None)
@@ -2076,8 +2108,10 @@ BYTE_DOCS = [
 ]
 
 
-def _byte_case(data, bmode, origin, h=None, proc=None):
+def _byte_case(data, bmode, origin, h=None, proc=None, trail=None):
     case = {'data': data.decode('latin-1'), 'bmode': bmode, 'origin': origin}
+    if trail is not None:
+        case['trail'] = trail          # the least number of clauses a reading of the whole text has
     if h is not None:
         case['h'] = list(h)
     if proc is not None:
@@ -2133,6 +2167,38 @@ def enum_reader_bytes(tier):
                 if quick and via.startswith('stdin') and (i >= 4 or via != 'stdin-cnfgen'):
                     continue
                 yield _byte_case(data, 'handle', origin, h=c + [None, via])
+    # lone punctuation after the last clause x what follows x what the problem line counts
+    tk = 0
+    for punct in TRAIL_PUNCT:
+        for after in TRAIL_AFTER:
+            for m_kind in TRAIL_M:
+                for eol in ((b'\n',) if quick else (b'\n', b'\r\n')):
+                    tk += 1
+                    n, clauses = [(9999, [[1, -2], [12, 3, -45]]), (2, [[1, -2], [2]]), (3, [])][tk % 3]
+                    data, least = _byte_trail(n, clauses, punct, after, m_kind, head=[b'c trail'][:tk % 2], eol=eol,
+                                              final_eol=bool(tk % 5))
+                    origin = ['trail', 'trail-' + {b'%': 'percent', b'0': 'zero', b'c': 'c', b'p': 'p'}.get(punct.strip(), 'other'),
+                              'trail-m-' + m_kind, 'trail-after-' + ('nothing' if not after else 'clause' if isinstance(after[0], list)
+                                                                     else 'line')]
+                    if not quick:
+                        modes = NAME_BMODES
+                    else:
+                        modes = ['name-lib'] + [['name-cnfgen'], [], ['name-shuffle'], ['name-cnfgen-main'], [],
+                                                ['name-shuffle-main'], []][((tk - 1) // 2) % 7]
+                    for bm in modes:
+                        yield _byte_case(data, bm, origin, trail=least)
+                    for j in range(2 if quick else len(HANDLE_CODECS)):
+                        c = HANDLE_CODECS[(tk + j * 5) % len(HANDLE_CODECS)]
+                        vias = lib_vias if quick and (tk + j) % 8 else HANDLE_VIAS
+                        via = vias[(tk // 3 + j) % len(vias)]
+                        yield _byte_case(data, 'handle', origin, h=c + [HANDLE_NEWLINES[(tk + j) % 4], via], trail=least)
+    for i, (tool, env_name, punct, after, m_kind) in enumerate(
+            [('cnfgen', 'utf8', b'%', [[2, -1]], 'before'), ('cnfshuffle', 'stdin-utf8', b'%', [b'0'], 'before'),
+             ('cnfshuffle', 'ascii', b'0', [[1]], 'full'), ('cnfgen', 'stdin-latin1', b'c', [[1, 2]], 'full')] if quick else
+            [(t, e, p, a, mk) for t in ('cnfgen', 'cnfshuffle') for e in PROC_ENVS for p in TRAIL_PUNCT[:4]
+             for a in TRAIL_AFTER[:5] for mk in TRAIL_M]):
+        data, least = _byte_trail(2, [[1, -2], [2]], punct, after, m_kind)
+        yield _byte_case(data, 'proc', ['trail', 'trail-m-' + m_kind], proc=[tool, env_name], trail=least)
     # the real programs
     base = _byte_base(*BYTE_DOCS[0])
     procs = [('cnfgen', 'utf8', 'lit-digits', 'ff'), ('cnfgen', 'ascii', 'lit-digits', 'e9'), ('cnfshuffle', 'utf8', 'lit-sign', '80'),
@@ -2160,6 +2226,10 @@ _S_BEDIT = st.tuples(st.sampled_from(BYTE_POS), _S_CAP, st.sampled_from([j[0] fo
 _S_BEDITS = st.lists(_S_BEDIT, min_size=1, max_size=2)
 _S_BMODE = st.sampled_from(['name-lib'] * 8 + ['name-cnfgen'] * 2 + ['name-shuffle'] * 2 +
                            ['name-cnfgen-main', 'name-shuffle-main'] + ['handle'] * 14)
+_S_TRAIL_PUNCT = st.sampled_from(TRAIL_PUNCT[:4] * 3 + TRAIL_PUNCT[4:])
+_S_TRAIL_AFTER = st.one_of(st.sampled_from(TRAIL_AFTER), st.lists(st.one_of(
+    st.lists(_S_BLIT, max_size=3), st.sampled_from([b'0', b'%', b'c', b'p', b'x', b'1 2', b'c 1 0', b'p cnf 1 1'])), max_size=3))
+_S_TRAIL_M = st.sampled_from(TRAIL_M)
 _S_BH = st.tuples(st.sampled_from(HANDLE_CODECS), st.sampled_from(HANDLE_NEWLINES),
                   st.sampled_from(HANDLE_VIAS[:6] * 3 + HANDLE_VIAS[6:])).map(lambda t: t[0] + [t[1], t[2]])
 
@@ -2170,20 +2240,348 @@ def _st_reader_bytes(draw):
     n = draw(_S_BN)
     top = max([abs(l) for c in clauses for l in c] + [0])
     n = top if n == 'tight' or n < top else n
+    bmode = draw(_S_BMODE)
+    if draw(_S_SIX) < 3:
+        # a quarter of the byte cases: lone punctuation after the last clause (no other damage: the text is plain ASCII
+        # apart from its comments, so that every decoding agrees on the clause lines)
+        punct, after, m_kind = draw(_S_TRAIL_PUNCT), draw(_S_TRAIL_AFTER), draw(_S_TRAIL_M)
+        data, least = _byte_trail(n, clauses, punct, after, m_kind, head=draw(_S_BHEAD), eol=draw(_S_BEOL), final_eol=draw(_S_SIX) > 1)
+        origin = ['trail', 'trail-' + {b'%': 'percent', b'0': 'zero', b'c': 'c', b'p': 'p'}.get(punct.strip(), 'other'),
+                  'trail-m-' + m_kind, 'trail-after-' + ('nothing' if not after else 'clause' if isinstance(after[0], list) else 'line')]
+        return _byte_case(data, bmode, origin, h=draw(_S_BH) if bmode == 'handle' else None, trail=least)
     base = _byte_base(n, clauses, draw(_S_BHEAD), draw(_S_BOPT), draw(_S_BOPT), draw(_S_BEOL))
     edits = draw(_S_BEDITS)
     data = _byte_inject(base, edits)
     origin = sorted({'junk-' + BYTE_JUNK_BY_NAME[e[2]][2] for e in edits} | {'at-' + e[0] for e in edits})
-    bmode = draw(_S_BMODE)
     return _byte_case(data, bmode, origin, h=draw(_S_BH) if bmode == 'handle' else None)
 
 
 _S_MODE = st.sampled_from(['parse'] * 12 + ['strio'] * 12 + ['file'] * 4 + ['cli-file', 'cli-stdin'])
 _ST_READER_BYTES = _st_reader_bytes()
-
-
-_ST_READER_TEXTS = st.tuples(rd.st_reader_text(), _S_MODE).map(
+_ST_READER_TEXTS0 = st.tuples(rd.st_reader_text(), _S_MODE).map(
     lambda p: {'text': p[0][0], 'mode': p[1], 'origin': p[0][1]})
+
+
+# ---- (b3) the state of the stream the reader is handed: seekable streams that are NOT at position 0
+#
+# case['stream'] = {
+#   'carrier':  strio | tmpfile (tempfile.TemporaryFile('w+'), its .name is a descriptor) | named (open(path, 'w+')) |
+#               reopened (written through one handle, closed, opened again for reading by the caller)
+#   'prefix':   ['none'] | ['record', text] | ['comments', text] | ['junk', text] | ['formula', n, clauses, header]
+#               what the stream holds in front (a whole formula is written by the tree's writer)
+#   'skip':     seek (tell() before the formula is written, seek() back to it) | readline (rewind, read the lines of
+#               the prefix one by one) | read (rewind, read(len(prefix)))   - how the caller gets behind the prefix
+#   'n', 'clauses', 'header', 'varnames':  the formula, written AT THE CURRENT POSITION by the tree's writer
+#   'suffix':   None | [n, clauses]  another whole formula written behind it
+#   'consume':  none | comments (the caller reads the comment lines in front of the problem line) | pline (all lines
+#               up to and including the problem line) | all (everything)  - read by the caller before handing over
+#   'via':      from_file | parse | stdin-lib | stdin-cnfgen | stdin-shuffle (in-process, the stream stands in for
+#               sys.stdin) | proc-cnfgen | proc-shuffle (the real program; its standard input is the file, opened
+#               unbuffered by the caller who read the first part from it)
+# }
+# Oracle: the reference reading of the text from the current position to the end.
+
+STREAM_CARRIERS = ['strio', 'tmpfile', 'named', 'reopened']
+STREAM_PREFIXES = ['none', 'record', 'comments', 'junk', 'formula']
+STREAM_SKIPS = ['seek', 'readline', 'read']
+STREAM_CONSUMES = ['none', 'comments', 'pline', 'all']
+STREAM_VIAS = ['from_file', 'parse', 'stdin-lib', 'stdin-cnfgen', 'stdin-shuffle', 'proc-cnfgen', 'proc-shuffle']
+STREAM_RECORDS = ['run 17, php 3 2, seed 42\n', 'id;n;m\n7;3;2\n', '# formulas of the experiment\n\n', 'x\n',
+                  '1 2 0\n', 'résultat 日本 3\n', '%\n', '{"n": 3, "m": 2}\n']
+STREAM_COMMENTS = ['c\n', 'c first part\nc\n', 'c p cnf 3 4\n', 'c 1 2 0\ncé\n']
+STREAM_JUNK = ['p cnf 1 1\n1 0\n', 'p cnf 2 5\n1', 'p cnf', '0\n', '1 -2 0\n0\n', 'p cnf 3 1\n1 2 3', '\n\n', '\x00\x01\n',
+               '-', 'p cnf 1 0\n%\n', 'c unfinished comment', ' ']
+STREAM_FORMULAS = [(4, [[1, -2], [3], [-1, 2, -3]]), (3, []), (2, [[]]), (1, [[1]]), (12, [[10, -12], [11], [], [1, 2, 3, 4]])]
+
+
+def _stream_formula(n, clauses, header):
+    from cnfgen import CNF
+    F = CNF(description='formula in a stream')
+    F.update_variable_number(n)
+    for c in clauses:
+        F.add_clause(list(c), check=False)
+    if header:
+        F.header['note'] = 'second entry'
+    return F
+
+
+def _stream_call(via, stream, what):
+    """-> (got, exc): the tree reads from the stream as it is"""
+    from cnfgen import CNF
+    from cnfgen.utils.parsedimacs import parse_dimacs
+    if via == 'from_file':
+        try:
+            return _snapshot(CNF.from_file(stream)), None
+        except ValueError as e:
+            return None, e
+    if via == 'parse':
+        try:
+            seq = list(parse_dimacs(stream))
+        except ValueError as e:
+            return None, e
+        if len(seq) < 2 or seq[1] != len(seq) - 2:
+            raise Violation("{}: parse_dimacs yields m={} followed by {} clauses".format(
+                what, seq[1] if len(seq) > 1 else None, len(seq) - 2))
+        return (seq[0], [list(c) for c in seq[2:]]), None
+    if via == 'stdin-lib':
+        old = sys.stdin
+        sys.stdin = stream
+        try:
+            return _snapshot(CNF.from_file()), None
+        except ValueError as e:
+            return None, e
+        finally:
+            sys.stdin = old
+    if via == 'stdin-cnfgen':
+        return _tool_formula('cnfgen', ['-q', 'dimacs'], stdin=stream)
+    if via == 'stdin-shuffle':
+        return _tool_formula('cnfshuffle', SHUFFLE_FIXED, stdin=stream)
+    raise KeyError(via)
+
+
+def _stream_proc(tool, path, nbytes, by_lines):
+    """The real program with the FILE as standard input, the caller having read `nbytes` bytes (`by_lines` lines when
+    not None) from the same open file before."""
+    from vlib import cli as vcli
+    env = {k: v for k, v in os.environ.items() if k not in ('PYTHONHASHSEED', 'LC_ALL', 'LC_CTYPE', 'LANG', 'PYTHONUTF8',
+                                                            'PYTHONIOENCODING', 'PYTHONCOERCECLOCALE')}
+    env.update({'PYTHONPATH': REPO, 'PYTHONHASHSEED': '0', 'PYTHONWARNINGS': 'ignore'})
+    env.update(PROC_ENVS['utf8'])
+    code = "import sys; sys.argv[0]={!r}; from {} import main; main()".format(tool, vcli.TOOLS[tool])
+    args = ['-q', 'dimacs'] if tool == 'cnfgen' else list(SHUFFLE_FIXED)
+    with open(path, 'rb', buffering=0) as f:
+        if by_lines is not None:
+            for _ in range(by_lines):
+                f.readline()
+        else:
+            f.read(nbytes)
+        if f.tell() != nbytes:
+            raise RuntimeError("harness: the file is at {} instead of {}".format(f.tell(), nbytes))
+        p = subprocess.run([sys.executable] + (['-O'] if sys.flags.optimize else []) + ['-c', code] + args,
+                           stdin=f, stdout=subprocess.PIPE, stderr=subprocess.PIPE, cwd=REPO, env=env, timeout=300)
+    return p.returncode & 0xFF, p.stdout.decode('utf-8', 'replace'), p.stderr.decode('utf-8', 'replace')
+
+
+def run_reader_stream(case):
+    sp = case['stream']
+    carrier, skip, consume, via = sp['carrier'], sp['skip'], sp['consume'], sp['via']
+    prefix = sp['prefix']
+    n, clauses = sp['n'], [list(c) for c in sp['clauses']]
+    proc = via.startswith('proc-')
+    if proc:
+        carrier = 'reopened'
+    labels = ['stream', 'stream-carrier-' + carrier, 'stream-prefix-' + prefix[0], 'stream-consume-' + consume,
+              'stream-via-' + via]
+    what = "[stream {} prefix={} skip={} consumed={} via {}]".format(carrier, prefix[0], skip, consume, via)
+    F = _stream_formula(n, clauses, sp['header'])
+    os.makedirs(TMPBASE, exist_ok=True)
+    path = None
+    stream = None
+    exc = None
+    eaten = ''
+    try:
+        if carrier == 'strio':
+            stream = io.StringIO()
+        elif carrier == 'tmpfile':
+            stream = tempfile.TemporaryFile('w+', encoding='utf-8', dir=TMPBASE)
+        else:
+            fd, path = tempfile.mkstemp(prefix='c06-', suffix='.txt', dir=TMPBASE)
+            os.close(fd)
+            stream = open(path, 'w+', encoding='utf-8')
+        # -- what the stream holds in front
+        if prefix[0] == 'formula':
+            _stream_formula(prefix[1], prefix[2], prefix[3]).to_file(stream, export_header=prefix[3], export_varnames=False)
+        elif prefix[0] != 'none':
+            stream.write(prefix[1])
+        start = stream.tell()
+        stream.seek(0)
+        pre_text = stream.read()
+        if skip == 'readline' and pre_text and not pre_text.endswith('\n'):
+            stream.write('\n')
+            pre_text += '\n'
+            start = stream.tell()
+        stream.seek(start)
+        # -- the formula, by the tree's writer, at the current position
+        F.to_file(stream, fileformat='dimacs', export_header=sp['header'], export_varnames=sp['varnames'])
+        if sp.get('suffix') is not None:
+            _stream_formula(sp['suffix'][0], sp['suffix'][1], False).to_file(stream, export_header=False)
+            labels.append('stream-suffix')
+        stream.seek(start)
+        body = stream.read()
+        lines = body.split('\n')
+        lines = [ln + '\n' for ln in lines[:-1]] + ([lines[-1]] if lines[-1] else [])
+        if consume == 'none':
+            k = 0
+        elif consume == 'comments':
+            k = 0
+            while k < len(lines) and lines[k][:1] == 'c':
+                k += 1
+        elif consume == 'pline':
+            k = next(i for i, ln in enumerate(lines) if ln[:1] == 'p') + 1
+        else:
+            k = len(lines)
+        rest = ''.join(lines[k:])
+        eaten = pre_text + ''.join(lines[:k])
+        if eaten:
+            labels.append('stream-pos>0')
+        if k:
+            labels.append('stream-lines-consumed')
+        # -- the caller gets to the position
+        if proc:
+            stream.close()
+            nlines = None
+            if skip == 'readline' and '\r' not in eaten and (eaten == '' or eaten.endswith('\n')):
+                nlines = eaten.count('\n')
+            code, out, err = _stream_proc(via[5:].replace('shuffle', 'cnfshuffle'), path, len(eaten.encode('utf-8')), nlines)
+            got, exc = _stdout_reading(out, code, err, what, eaten.encode('utf-8'))
+        else:
+            if carrier == 'reopened':
+                stream.close()
+                stream = open(path, 'r', encoding='utf-8')
+            if skip == 'seek':
+                if carrier == 'reopened':
+                    stream.read(len(pre_text))
+                    start = stream.tell()
+                    stream.seek(0)
+                stream.seek(start)
+            elif skip == 'readline':
+                stream.seek(0)
+                for _ in range(pre_text.count('\n')):
+                    stream.readline()
+            else:
+                stream.seek(0)
+                stream.read(len(pre_text))
+            for _ in range(k):
+                stream.readline()
+            labels.append('stream-skip-' + skip)
+            got, exc = _stream_call(via, stream, what)
+        # -- the reference reading of the rest
+        label, msg = rd.judge(rest, got, exc is not None)
+        if msg is not None:
+            raise Violation("{}: the stream was handed over at character {} of {}; from there on: {}; "
+                            "in front of the position={!r}; rest={!r}".format(what, len(eaten), len(eaten) + len(rest), msg,
+                                                                          eaten[-200:], rest[:300]))
+        if consume in ('none', 'comments') and sp.get('suffix') is None:
+            # by construction: what the tree's writer put at the position is read back as the same formula
+            if exc is not None or (got[0], got[1]) != (n, clauses):
+                raise Violation("{}: a formula with {} variables and clauses {} written at character {} of the stream and read "
+                                "back from there gives {}; text at the position={!r}".format(
+                                    what, n, clauses[:12], len(eaten), '{}: {}'.format(type(exc).__name__, str(exc)[:120])
+                                    if exc is not None else '{} variables and clauses {}'.format(got[0], got[1][:12]), rest[:300]))
+        elif consume in ('pline', 'all') and sp.get('suffix') is None and exc is None:
+            raise Violation("{}: a remainder without problem line is accepted as {} variables and clauses {}; rest={!r}".format(
+                what, got[0], got[1][:12], rest[:300]))
+        labels.append('stream-returned' if exc is None else 'stream-refused')
+        if exc is not None and eaten:
+            labels.append('stream-refused-remainder')
+        if exc is None and eaten and prefix[0] in ('record', 'junk', 'formula'):
+            labels.append('stream-returned-behind-' + prefix[0])
+    finally:
+        if stream is not None:
+            try:
+                stream.close()
+            except (OSError, ValueError):
+                pass
+        if path is not None:
+            os.unlink(path)
+    return Outcome(labels=labels, nontrivial=len(eaten) > 0, rejected=exc is not None)
+
+
+def _stream_case(carrier, prefix, skip, consume, via, n, clauses, header=True, varnames=False, suffix=None):
+    return {'stream': {'carrier': carrier, 'prefix': list(prefix), 'skip': skip, 'consume': consume, 'via': via, 'n': n,
+                       'clauses': clauses, 'header': header, 'varnames': varnames, 'suffix': suffix}}
+
+
+def enum_reader_stream(tier):
+    """carriers x prefixes x ways to get behind the prefix x lines consumed x entry points; quick tier: the library
+    entry points in full, the in-process tools on every sixth combination, 8 runs of the real programs"""
+    quick = tier != 'thorough'
+    k = 0
+    for carrier in STREAM_CARRIERS:
+        for pk in STREAM_PREFIXES:
+            for skip in STREAM_SKIPS:
+                for consume in STREAM_CONSUMES:
+                    for via in STREAM_VIAS[:5]:
+                        k += 1
+                        if quick and via in ('stdin-cnfgen', 'stdin-shuffle') and k % 6:
+                            continue
+                        n, clauses = STREAM_FORMULAS[k % len(STREAM_FORMULAS)]
+                        if pk == 'none':
+                            prefix = ['none']
+                        elif pk == 'formula':
+                            fn, fc = STREAM_FORMULAS[(k // 3) % len(STREAM_FORMULAS)]
+                            prefix = ['formula', fn, fc, bool(k % 2)]
+                        else:
+                            pool = {'record': STREAM_RECORDS, 'comments': STREAM_COMMENTS, 'junk': STREAM_JUNK}[pk]
+                            prefix = [pk, pool[(k // 5) % len(pool)]]
+                        suffix = list(STREAM_FORMULAS[(k // 7) % len(STREAM_FORMULAS)]) if k % 11 == 0 else None
+                        yield _stream_case(carrier, prefix, skip, consume, via, n, clauses, header=bool((k // 2) % 3),
+                                           varnames=bool(k % 4 == 1), suffix=suffix)
+    procs = [('proc-cnfgen', ['record', STREAM_RECORDS[0]], 'readline', 'none'),
+             ('proc-shuffle', ['record', STREAM_RECORDS[1]], 'read', 'none'),
+             ('proc-cnfgen', ['formula', 2, [[1, 2], [-1]], False], 'read', 'comments'),
+             ('proc-shuffle', ['formula', 3, [[1, -3]], True], 'readline', 'none'),
+             ('proc-cnfgen', ['none'], 'readline', 'pline'), ('proc-shuffle', ['junk', STREAM_JUNK[0]], 'readline', 'pline'),
+             ('proc-cnfgen', ['comments', STREAM_COMMENTS[1]], 'readline', 'all'),
+             ('proc-shuffle', ['none'], 'readline', 'comments')]
+    if not quick:
+        procs = [(v, p, s, c) for v in ('proc-cnfgen', 'proc-shuffle')
+                 for p in (['none'], ['record', STREAM_RECORDS[0]], ['record', STREAM_RECORDS[5]], ['comments', STREAM_COMMENTS[1]],
+                           ['junk', STREAM_JUNK[0]], ['junk', STREAM_JUNK[5]], ['formula', 2, [[1, 2], [-1]], False],
+                           ['formula', 3, [[1, -3]], True])
+                 for s in ('readline', 'read') for c in STREAM_CONSUMES]
+    for i, (via, prefix, skip, consume) in enumerate(procs):
+        n, clauses = STREAM_FORMULAS[i % 2 * 4]
+        yield _stream_case('reopened', prefix, skip, consume, via, n, clauses, header=bool(i % 3), varnames=False)
+
+
+_S_STREAM_CARRIER = st.sampled_from(STREAM_CARRIERS)
+_S_STREAM_SKIP = st.sampled_from(STREAM_SKIPS)
+_S_STREAM_CONSUME = st.sampled_from(['none'] * 4 + ['comments'] * 2 + ['pline'] * 2 + ['all'])
+_S_STREAM_VIA = st.sampled_from(['from_file'] * 8 + ['parse'] * 6 + ['stdin-lib'] * 4 + ['stdin-cnfgen', 'stdin-shuffle'])
+_S_STREAM_PK = st.sampled_from(['none', 'record', 'record', 'comments', 'junk', 'junk', 'formula', 'formula', 'text', 'text'])
+_S_STREAM_RECORD = st.lists(st.one_of(st.sampled_from(STREAM_RECORDS),
+                                      st.text(alphabet='abc xyz,;=0123-%\té', min_size=1, max_size=12).map(lambda t: 'r' + t + '\n')),
+                            min_size=1, max_size=3).map(''.join)
+_S_STREAM_COMMENT = st.lists(st.sampled_from(STREAM_COMMENTS), min_size=1, max_size=3).map(''.join)
+_S_STREAM_JUNK = st.one_of(st.sampled_from(STREAM_JUNK), st.text(alphabet='pcnf 0123-+\n\n\t%_', min_size=1, max_size=30))
+_S_STREAM_SUFFIX = st.sampled_from([False] * 5 + [True])
+_S_STREAM_NEXTRA = st.sampled_from([0, 0, 1, 3])
+_S_STREAM_CLAUSES = st.lists(st.lists(st.builds(lambda v, s: v * s, st.integers(1, 9), _S_SIGN), max_size=3), max_size=6)
+
+
+@st.composite
+def _st_reader_stream(draw):
+    clauses = draw(_S_STREAM_CLAUSES)
+    n = max([abs(l) for c in clauses for l in c] + [0]) + draw(_S_STREAM_NEXTRA)
+    pk = draw(_S_STREAM_PK)
+    if pk == 'none':
+        prefix = ['none']
+    elif pk == 'formula':
+        pc = draw(_S_STREAM_CLAUSES)
+        prefix = ['formula', max([abs(l) for c in pc for l in c] + [0]) + draw(_S_STREAM_NEXTRA), pc, draw(_S_BOOL)]
+    elif pk == 'text':
+        # any text of the reader's generators (valid documents included); the files are opened with universal newlines
+        text = draw(_ST_READER_TEXTS0)['text'].replace('\r', '')
+        try:
+            text.encode('utf-8')
+        except UnicodeEncodeError:
+            text = 'p cnf 1 1\n1 0\n'
+        prefix = ['junk', text]
+    else:
+        prefix = [pk, draw({'record': _S_STREAM_RECORD, 'comments': _S_STREAM_COMMENT, 'junk': _S_STREAM_JUNK}[pk])]
+    suffix = None
+    if draw(_S_STREAM_SUFFIX):
+        sc = draw(_S_STREAM_CLAUSES)
+        suffix = [max([abs(l) for c in sc for l in c] + [0]), sc]
+    return _stream_case(draw(_S_STREAM_CARRIER), prefix, draw(_S_STREAM_SKIP), draw(_S_STREAM_CONSUME), draw(_S_STREAM_VIA),
+                        n, clauses, header=draw(_S_BOOL), varnames=draw(_S_BOOL), suffix=suffix)
+
+
+_ST_READER_STREAM = _st_reader_stream()
+
+
+_ST_READER_TEXTS = _ST_READER_TEXTS0
 _S_SIX = st.sampled_from(list(range(12)))
 
 
@@ -2191,7 +2589,8 @@ _S_SIX = st.sampled_from(list(range(12)))
 def _st_reader(draw):
     # (one_of() drops repeated arguments: the share of the byte cases is drawn instead; 1 in 12 draws gives about
     # one byte case in five, the text cases being discarded as duplicates more often)
-    return draw(_ST_READER_BYTES if draw(_S_SIX) == 11 else _ST_READER_TEXTS)
+    k = draw(_S_SIX)
+    return draw(_ST_READER_BYTES if k == 11 else _ST_READER_STREAM if k == 10 else _ST_READER_TEXTS)
 
 
 _ST_READER = _st_reader()
@@ -2214,6 +2613,7 @@ def enum_reader(tier):
         for mode in READER_MODES:
             yield {'text': t, 'mode': mode, 'origin': ['corpus']}
     yield from enum_reader_bytes(tier)
+    yield from enum_reader_stream(tier)
 
 
 # ---------------------------------------------------------------------------
@@ -2356,7 +2756,9 @@ SUBCHECKS = [
              quick=20000, thorough=600000,
              rule="grammar of DIMACS-like documents (n<=6, <=6 clauses, comments anywhere, blank lines, several clauses per line, clauses spanning lines, tabs, CRLF) composed with 0..2 of 17 mutators, raw st.text(), text over the alphabet 'pcnf 0123-+_\\n\\t\\r'; every text through parse_dimacs, CNF.from_file(StringIO), CNF.from_file(filename), cnfgen dimacs <file>|<stdin>; plus the texts of tests/test_dimacsparser.py and 41 corner texts x 5 modes. Oracle: reference interpretation (accept => identical formula; reject => ValueError; gray => ValueError or a permissive reading). Non-trivial: problem line and >=1 clause token. "
                   "BYTES (about 1/5 of the generated cases and an enumerated grid, cases with 'data'): FILES THAT ARE NOT CLEAN UTF-8 TEXT - a well formed document (1..5 clauses of width 0..4 over literals of 1..3 digits, declared variables = the largest one or 99 / 9999 / 20000 so that two glued neighbours stay in range, 0..2 comment lines in front, optional comment between and after the clauses, ASCII or UTF-8 comments, LF or CRLF) into which 1..2 pieces out of 36 are put: bytes that are not UTF-8 (0xff 0xfe 0x80 0x9f 0xbf 0xa0 0x85 0xb2 0xc0 0xc3, Latin-1 accented letters, sequences cut after 1, 2, 3 of their bytes, an encoded surrogate, overlong forms, a 5-byte form, a code beyond U+10FFFF), byte order marks (UTF-8, UTF-16 LE/BE), NUL bytes, and valid but odd UTF-8 (e-acute, NBSP, NEL, zero width space, fullwidth and Arabic-Indic digits, U+2028, an emoji, DEL, ESC) at 22 kinds of position: start of the file, inside / right after the 'c' of / in front of / at the end of a comment line, in the problem line (in front, inside 'cnf', between the digits of n, instead of the blank between n and m, in m, at the end), in a clause line (between two digits of a literal, between sign and digits, glued in front of / behind a literal, instead of the blank between two literals, as a token of its own, in front of / behind the closing 0, instead of the line end), at the end of the file with and without the final newline; whole documents encoded in UTF-8, UTF-8 with BOM, UTF-16 (BOM, LE, BE), UTF-32, Latin-1, cp1252, padded with NULs, cut inside the last multi-byte character. Entry points: BY NAME CNF.from_file(name), cli(['cnfgen','-q','dimacs',name]), cnfshuffle's cli(['-q','-p','-v','-c','-i',name]) (nothing is shuffled), the main() of both tools (exit status, stdout, stderr), and the real programs in a process of their own under a UTF-8 and an ASCII locale; HANDLES the caller opened with 14 encoding/error-handler pairs (utf-8 strict|surrogateescape|ignore|replace|backslashreplace, latin-1 strict|ignore, ascii strict|surrogateescape|ignore|replace, utf-8-sig, cp1252, utf-16) x newline None|''|'\\n', given to CNF.from_file(handle), parse_dimacs(handle) or standing in for sys.stdin of CNF.from_file(), cnfgen dimacs, cnfshuffle; the real programs with the bytes on stdin under PYTHONIOENCODING latin-1 / utf-8. Enumerated: 36 pieces x 22 positions on one document (thorough: 3 documents x LF/CRLF x 3 places per kind x all entry points x all 14 handles), 11 whole-document encodings x all entry points x 14 handles, 8 (thorough 504) runs of the real programs. "
-                  "Oracle BY NAME: the reader chooses the decoding; it either refuses the file (ValueError / CLIError / non-zero exit with a message and no traceback) or returns a reading that the reference interpretation allows for the text which a STRICT decoder of utf-8, utf-8-sig, latin-1, cp1252, ascii, the locale's encoding (utf-16/32 when the file starts with their BOM) makes of the bytes - so bytes are never dropped with the neighbouring digits glued together, no clause and no variable count is made up; a file that is valid DIMACS text in the encoding the entry point uses (UTF-8 for the library, the locale's for the tools) may not be refused. Oracle HANDLE: the caller chose the decoding; the reference interpretation of the text the codec's incremental decoder yields (accept => identical formula, reject => ValueError, gray => either); when that decoder raises, the reader must refuse with ValueError/CLIError",
+                  "Oracle BY NAME: the reader chooses the decoding; it either refuses the file (ValueError / CLIError / non-zero exit with a message and no traceback) or returns a reading that the reference interpretation allows for the text which a STRICT decoder of utf-8, utf-8-sig, latin-1, cp1252, ascii, the locale's encoding (utf-16/32 when the file starts with their BOM) makes of the bytes - so bytes are never dropped with the neighbouring digits glued together, no clause and no variable count is made up; a file that is valid DIMACS text in the encoding the entry point uses (UTF-8 for the library, the locale's for the tools) may not be refused. Oracle HANDLE: the caller chose the decoding; the reference interpretation of the text the codec's incremental decoder yields (accept => identical formula, reject => ValueError, gray => either); when that decoder raises, the reader must refuse with ValueError/CLIError. "
+                  "TRAIL (a quarter of the byte cases and an enumerated grid, cases with 'trail'): LINES OF LONE PUNCTUATION AFTER THE LAST CLAUSE - a well formed document (0..5 clauses, no other damage) followed by one line out of '%' '0' 'c' 'p' ' % ' '<tab>0' 'c%' '%0' '% 0' and then by nothing / 1..2 more clause lines / a lone 0 / a junk line / another '%' / a comment / a second document / an empty clause / an open clause / mixtures (generated: 0..3 lines out of clause lines of width 0..3 and '0' '%' 'c' 'p' 'x' '1 2' 'c 1 0' 'p cnf 1 1'), the problem line counting either the clauses in front of the punctuation line or every closing 0 of the text, LF or CRLF, with and without final newline, through all the by-name, handle and process entry points above (enumerated: 9 x 12 x 2 texts, 4 (thorough 320) runs of the real programs). Oracle: the by-name / handle oracle above, and stated apart from it: a text is refused or read to its end - a returned formula never has fewer clauses than the text closes (nothing behind a '%' or any other lone line is dropped silently). "
+                  "STREAM (about 1/5 of the generated cases and an enumerated grid, cases with 'stream'): THE STATE OF THE STREAM THE READER IS HANDED - seekable streams that are NOT at position 0. Carriers: io.StringIO, tempfile.TemporaryFile('w+') (its .name is a descriptor), open(path,'w+'), a file written through one handle and opened again for reading by the caller. In front of the position: nothing / 1..3 record lines (8 fixed ones, generated lines over 'abc xyz,;=0123-%<tab>e-acute') / 1..3 comment-like lines / junk (12 fixed pieces such as a complete small document, 'p cnf 2 5<LF>1', 'p cnf', '0', NUL bytes, an unfinished line; generated text over 'pcnf 0123-+<LF><tab>%_'; any text of the reader's own generators, valid documents included) / another whole formula written by the tree's writer (0..6 clauses of width 0..3 over 1..9 variables, with or without header). The caller gets behind it by tell()+seek(), by readline() per line or by read(len). THEN a formula (0..6 clauses of width 0..3 over 1..9 variables plus 0..3 unused ones, header and variable comments on or off) is written at the current position by the tree's writer (to_file, format dimacs), in 1 case of 6 followed by another whole formula; before handing the stream over the caller reads from it: nothing / the comment lines in front of the problem line / everything through the problem line / everything. Entry points: CNF.from_file(stream), parse_dimacs(stream), the stream standing in for sys.stdin of CNF.from_file(), of cli(['cnfgen','-q','dimacs']) and of cnfshuffle's cli(['-q','-p','-v','-c']); and the REAL programs `cnfgen -q dimacs` / `cnfshuffle -q -p -v -c` in a process of their own whose standard input is the regular file, opened unbuffered by the caller who has read the first lines (readline per line, or read(k bytes)) from the same open file. Enumerated: 4 carriers x 5 kinds of prefix x 3 ways to skip x 4 amounts consumed x 5 in-process entry points (quick: the tools on every sixth combination) over 5 corner formulas (no clause, the empty clause, one unit clause, two-digit variables), every 11th with a second formula behind; 8 (thorough 128) runs of the real programs. Oracle: the reader reads FROM THE CURRENT POSITION - its answer is judged by the reference interpretation of the text from the position to the end (accept => identical formula, reject => ValueError / CLIError / non-zero exit with a message, gray => either), and stated apart from it: with nothing or only comment lines consumed and nothing behind, the formula written at the position is read back identical (same number of variables, same clauses in order); with the problem line consumed the remainder is refused. Non-trivial: position > 0",
              required_labels=['accepted', 'rejected-range', 'rejected-count', 'rejected-open', 'rejected-syntax', 'gray',
                               'gray-returned', 'mode-parse', 'mode-strio', 'mode-file', 'mode-cli-file', 'mode-cli-stdin',
                               'gen-grammar', 'gen-raw', 'gen-alphabet', 'clauses>=2', 'accepted-empty-clause'] +
@@ -2368,7 +2770,16 @@ SUBCHECKS = [
                              ['bytes-mode-' + m for m in NAME_BMODES + ['handle', 'proc']] +
                              ['bytes-junk-' + c for c in ('invalid', 'latin1', 'bom', 'nul', 'valid')] +
                              ['bytes-at-' + p for p in BYTE_POS] + ['bytes-via-' + v for v in sorted(set(HANDLE_VIAS))] +
-                             ['bytes-handle-{}-{}'.format(*c) for c in HANDLE_CODECS]),
+                             ['bytes-handle-{}-{}'.format(*c) for c in HANDLE_CODECS] +
+                             ['bytes-trail', 'bytes-trail-percent', 'bytes-trail-zero', 'bytes-trail-c', 'bytes-trail-p',
+                              'bytes-trail-other', 'bytes-trail-m-before', 'bytes-trail-m-full', 'bytes-trail-after-nothing',
+                              'bytes-trail-after-clause', 'bytes-trail-after-line', 'bytes-trail-returned', 'bytes-trail-refused',
+                              'stream', 'stream-pos>0', 'stream-lines-consumed', 'stream-suffix', 'stream-returned',
+                              'stream-refused', 'stream-refused-remainder', 'stream-returned-behind-record',
+                              'stream-returned-behind-junk', 'stream-returned-behind-formula'] +
+                             ['stream-carrier-' + c for c in STREAM_CARRIERS] + ['stream-prefix-' + c for c in STREAM_PREFIXES] +
+                             ['stream-skip-' + c for c in STREAM_SKIPS] + ['stream-consume-' + c for c in STREAM_CONSUMES] +
+                             ['stream-via-' + c for c in STREAM_VIAS]),
     SubCheck('fuzz', run_fuzz, strategy=None, enumerate_cases=enum_fuzz, quick=0, thorough=0, opt_pass=False,
              rule="thorough: 16 atheris (libFuzzer) campaigns x 320000 runs on parse_dimacs / from_dimacs_file, 8 from an empty corpus and 8 seeded with the texts of tests/test_dimacsparser.py, fresh corpus directory under out/fuzz/C06, dictionary of DIMACS tokens, max_len 160, the reference-interpretation oracle evaluated inside the fuzz target; both tiers: the test-suite texts themselves",
              required_labels=['accepted', 'rejected-syntax']),
